@@ -242,7 +242,7 @@ def run(tier):
                             mut.add(name)
         if not mut:
             continue
-        ok = f.parent in LEDGER_WRITERS
+        ok = f.parent in LEDGER_WRITERS or M.only_called_from(fx, f.parent, set(LEDGER_WRITERS))
         ck.instance("R4.ledger-writers", "%s: %s" % (f.parent, ",".join(sorted(mut))), F.short_span(f.span), ok=ok)
         if not ok:
             ck.finding("R4.ledger-writers", "R4.ledger-writers/%s" % f.parent, F.short_span(f.span),
